@@ -453,6 +453,10 @@ def check_generate(run, model, case):
         py, plain, mod = py_values(kind, vspec)
     except AssertionError:     # an inner multisig script with a count outside 1..16
         py, plain, mod = None, None, py_values_model_only(vspec)
+    except Exception as e:  # noqa  (generating the inner script failed)
+        run.violation(case, f'generating the subscript of {name} raised {err_class(e)}',
+                      signature={'op': 'generate', 'template': name, 'values': vspec})
+        return
     try:
         if py is None:
             raise AssertionError
@@ -557,9 +561,22 @@ def script_of(spec):
     return apply_edits(cls(template=tmpl, values=py).source, spec.get('edits', []))
 
 
+def base_script(run, case):
+    try:
+        return script_of(case['script'])
+    except Exception as e:  # noqa
+        run.case(case, nontrivial=True)
+        g = case['script'].get('gen', {})
+        run.violation(case, f'generating {g.get("template")} raised {err_class(e)}',
+                      signature={'op': 'generate', 'template': g.get('template'), 'values': g.get('values')})
+        return None
+
+
 def check_parse(run, model, case):
     kind = case['kind']
-    src = script_of(case['script'])
+    src = base_script(run, case)
+    if src is None:
+        return
     impl = impl_parse(kind, src)
     run.case(case, nontrivial=len(src) > 0)
     run.count(f'parse-{kind}:' + (impl.get('template') or impl['error']))
@@ -651,7 +668,9 @@ def check_push(run, model, case, with_model=True):
 
 
 def check_tokenize(run, model, case):
-    src = script_of(case['script'])
+    src = base_script(run, case)
+    if src is None:
+        return
     impl = impl_tokens(src)
     run.case(case, nontrivial=len(src) > 0)
     run.count('tokenize:' + ('ok' if 'ok' in impl else impl['error']))
@@ -821,8 +840,7 @@ def gen_parse_case(rng):
         return {'op': 'parse', 'kind': 'input', 'script': {'gen': g, 'edits': edits}}
     kind, name = rng.choice(ALL_GEN)
     g = {'kind': kind, 'template': name, 'values': gen_values(rng, kind, name)}
-    py, _, _ = py_values(kind, g['values'])
-    n = 40 + sum(len(v) for v in py.values() if isinstance(v, bytes))
+    n = 40 + sum(len(data_of(v['b'])) for v in g['values'].values() if 'b' in v)
     k = rng.random()
     edits = [] if k < 0.15 else [rand_edit(rng, n) for _ in range(1 if k < 0.8 else 2)]
     pk = kind if name != 'timelock' else 'sub_timelock'
@@ -913,7 +931,7 @@ def main(run):
         fields = FIELDS[kind][name]
         for f in fields:                       # every boundary length in every push slot of every template
             for n in BOUNDARY:
-                if n >= 65534 and not T and rng.random() < 0.5:
+                if n >= 65534 and not T and rng.random() < 0.7:
                     continue
                 check_generate(run, model, {'op': 'generate', 'kind': kind, 'template': name,
                                             'values': gen_values(rng, kind, name, force_len=n, force_field=f)})
@@ -934,7 +952,7 @@ def main(run):
     for h in FIXED_SCRIPTS:
         for kind in ('output', 'input', 'sub_timelock', 'sub_multi_sig'):
             check_parse(run, model, {'op': 'parse', 'kind': kind, 'script': {'hex': h}})
-    for _ in range(vlib.scaled(run.tier, 4000, 120000)):
+    for _ in range(vlib.scaled(run.tier, 3500, 120000)):
         check_parse(run, model, gen_parse_case(rng))
 
     # ---- purchase typing at the row level ----
